@@ -58,14 +58,14 @@ class InterruptableThread(threading.Thread):
             RaiseAsyncException(thread_id, 0)
             raise SystemError("PyThreadState_SetAsyncExc failed")
 
-    def raise_exception(self, exception):
+    def raise_exception(self, exception, trust_is_alive=True):
         """
         Trigger a thread ending exception!
 
         Returns:
             bool: Whether the exception could be sent to the (still running) thread.
         """
-        if not self.is_alive():
+        if trust_is_alive and not self.is_alive():
             # The thread may have finished by itself in the meantime
             return False
         for thread_id, thread in threading._active.items():
@@ -134,7 +134,10 @@ def timeout(duration, func, *args, **kwargs):
     except BaseException:
         # The waiting thread is itself being given up on (a nested import in
         # threaded mode): nobody else is left to stop the thread it started.
-        target_thread.terminate()
+        # An exception that interrupts join() makes CPython report that thread
+        # as stopped while it still runs, so `is_alive()` is not consulted.
+        target_thread.terminated = True
+        target_thread.raise_exception(SystemExit, trust_is_alive=False)
         raise
 
     if timed_out:
